@@ -4,7 +4,7 @@ import os
 import re
 import vlib
 
-PROPS = ['Rangers.Props.C10', 'Rangers.Props.C10B', 'Rangers.Props.C10M', 'Rangers.Props.C10R', 'Rangers.Props.C10T']
+PROPS = ['Rangers.Props.C10', 'Rangers.Props.C10B', 'Rangers.Props.C10M', 'Rangers.Props.C10R', 'Rangers.Props.C10G', 'Rangers.Props.C10T']
 DRIVERS = ['C10']
 GENERATED = os.path.join(vlib.LEAN, 'Rangers', 'Generated', 'Evm10JumpTable.lean')
 MODEL_TABLE = os.path.join(vlib.LEAN, 'Rangers', 'Model', 'Evm10Table.lean')
